@@ -3,7 +3,7 @@ use super::c02::{replay_mode, run_mode, Mode};
 use crate::core::*;
 
 pub fn run(ctx: &mut Ctx) -> Result<(), Violation> {
-    ctx.rule = "C02's exhaustive single-fault family (every bit flip of tag/ciphertext/nonce/key/ephemeral key/header/AD, every truncation, extension family) for every message length in the tier's list, over every classic open function that writes into a caller buffer (secretbox/box/afternm/seal_open in easy, detached and in-place forms; stream pull). The caller's message buffer is pre-filled with a position-dependent sentinel (copying forms) or holds the ciphertext (in-place forms); the stream tag variable holds sentinel 0xA5. Oracle on Err: buffer byte-identical to before, or all zero; tag variable untouched; diagnostic: does the buffer share an 8-byte window with ciphertext XOR keystream computed by the reference. Control: authentic input opens to the plaintext and reports the pushed tag. Non-trivial: faulted open of a message of length >= 1 that returned Err; distinct = (opener, length, fault, fill).".into();
+    ctx.rule = "C02's exhaustive single-fault family (every bit flip of tag/ciphertext/nonce/key/ephemeral key/header/AD, every truncation, extension family) for every message length in the tier's list, over every classic open function that writes into a caller buffer (secretbox/box/afternm/seal_open in easy, detached and in-place forms; stream pull). The caller's message buffer is pre-filled with a position-dependent sentinel (copying forms) or holds the ciphertext (in-place forms); the stream tag variable holds sentinel 0xA5. Oracle on Err: every byte of the buffer is what the caller passed in or zero (an implementation may clear only the plaintext area); truncated ciphertexts are additionally opened into a buffer sized for the expected plaintext; tag variable untouched; diagnostic: does the buffer share an 8-byte window with ciphertext XOR keystream computed by the reference. Control: authentic input opens to the plaintext and reports the pushed tag. Non-trivial: faulted open of a message of length >= 1 that returned Err; distinct = (opener, length, fault, fill).".into();
     ctx.assumptions = vec!["object API exposes only Result (no caller buffer), so it is asserted in C02; C17 observes classic functions".into()];
     run_mode(ctx, Mode::C17)
 }
